@@ -387,6 +387,13 @@ def gen_fragment(rng, big, ctx_iv, allow_cenc=True, with_mdat=None):
             saio["_patch"] = True
         group = [leaf("saiz", "saiz", saiz, maybe_large(rng)), leaf("saio", "saio", saio, maybe_large(rng)),
                  ("L", senc_typ, maybe_large(rng), "senc", senc)]
+        if rng.random() < .3:
+            # both forms of the sample encryption box (same samples): with the saiz behind them
+            # the parser defers two boxes and has to put both back in place
+            twin = PIFF if senc_typ != PIFF else cc("senc")
+            group.append(("L", twin, maybe_large(rng), "senc", dict(senc)))
+        if rng.random() < .2:
+            group.append(gen_unknown(rng))
         rng.shuffle(group)
         if rng.random() < .3:
             group = [g for g in group if g[3] != "saio"]
